@@ -5,4 +5,5 @@ cd "$(dirname "$0")"
 export GOFLAGS=-mod=mod GOPROXY=off GOSUMDB=off GOTOOLCHAIN=local
 mkdir -p bin evidence replays
 (cd engine && go build -o ../bin/gosym .)
+./validate.sh || { echo "setup: model validation against the real libraries FAILED"; exit 1; }
 echo "setup ok: $(./bin/gosym -h 2>&1 | head -1)"
